@@ -9,6 +9,7 @@ Inductive rsearch_res := SPanic | SRes (r : sres).
 
 Inductive event :=
 | EvNew (rid : N)
+| EvNewPanic (rid : N)
 | EvClone (src dst : N)
 | EvConstraint (rid : N) (name type_name : bytes) (r : result constraint_err unit) (rendered : bytes)
 | EvInsert (rid : N) (t : bytes) (d : N) (r : result insert_err unit) (rendered : bytes) (dump : node) (disp : bytes)
@@ -132,6 +133,7 @@ Definition pparse_res : P (out (list expansion)) :=
 Definition pevent (fuel : nat) : P event :=
   let* t := ptok in
   if beqb t (w "new") then (let* r := pnum in pret (EvNew r))
+  else if beqb t (w "newpanic") then (let* r := pnum in pret (EvNewPanic r))
   else if beqb t (w "clone") then (let* a := pnum in let* b := pnum in pret (EvClone a b))
   else if beqb t (w "constraint") then
     (let* r := pnum in let* n := phex in let* ty := phex in let* res := pconstraint_res in let* rd := phex in
